@@ -185,9 +185,12 @@ class SolverTap:
         k = rec['k']
         dae = self.ss.dae
         held = rec.setdefault('held', set())
+        last = set()
         for item in self.ss.antiwindups:
             for key, _, _ in item.x_set:
-                held.update(np.atleast_1d(key).tolist())
+                last.update(np.atleast_1d(key).tolist())
+        held.update(last)
+        rec['held_last'] = last
         if rec['iters'] == 1:
             rec['f_first'] = dae.f.copy()
             rec['g_first'] = dae.g.copy()
